@@ -40,6 +40,9 @@ func (rc c18Rcpt) code() int {
 type c18Txn struct {
 	Rcpts    []c18Rcpt `json:"rcpts"`
 	Callback bool      `json:"callback"` // LMTPData with callback, else Data
+	// NilCallback (without Callback): the writer comes from LMTPData(nil)
+	// instead of Data() - another way of supplying no callback
+	NilCallback bool `json:"nil_callback,omitempty"`
 	Reset    bool      `json:"reset"`    // Client.Reset after the transaction
 	// SlowAt > 0: the delivery to the SlowAt-th accepted recipient (1-based)
 	// is slow: its status is held back until the client waits for it, then
@@ -145,7 +148,11 @@ func c18Run(c c18Case) Verdict {
 					obs[t].statuses = append(obs[t].statuses, c18Status{rcpt, status})
 				})
 			} else {
-				wc, err = cl.Data()
+				if tx.NilCallback {
+					wc, err = cl.LMTPData(nil)
+				} else {
+					wc, err = cl.Data()
+				}
 			}
 			if err != nil {
 				setupErr = fmt.Errorf("txn %d DATA: %w", ti, err)
@@ -361,6 +368,7 @@ type c18PeerRcpt struct {
 type c18PeerCase struct {
 	Txns     [][]c18PeerRcpt `json:"txns"`
 	Callback bool            `json:"callback"`
+	NilCallback bool         `json:"nil_callback,omitempty"` // without Callback: LMTPData(nil) instead of Data()
 	// HangUp: the peer sends the final replies of the last transaction and
 	// closes the connection in the same step, and the client's connection
 	// reports the end of the stream together with the last octets (one Read
@@ -517,6 +525,8 @@ func c18PeerRun(c c18PeerCase) Verdict {
 				wc, err = cl.LMTPData(func(rcpt string, status *smtp.SMTPError) {
 					obs[t].statuses = append(obs[t].statuses, c18Status{rcpt, status})
 				})
+			} else if c.NilCallback {
+				wc, err = cl.LMTPData(nil)
 			} else {
 				wc, err = cl.Data()
 			}
@@ -653,6 +663,7 @@ func TestC18(t *testing.T) {
 		c := c18Case{}
 		for i, n := 0, rapid.IntRange(1, 3).Draw(rt, "ntxn"); i < n; i++ {
 			tx := c18Txn{Callback: rapid.Bool().Draw(rt, "callback"), Reset: rapid.IntRange(0, 3).Draw(rt, "reset") == 0}
+			tx.NilCallback = !tx.Callback && rapid.Bool().Draw(rt, "nil_callback")
 			for j, m := 0, rapid.IntRange(1, 3).Draw(rt, "nrcpt"); j < m; j++ {
 				rc := c18Rcpt{Accept: rapid.IntRange(0, 3).Draw(rt, "accept") != 0, Deliver: rapid.Bool().Draw(rt, "deliver")}
 				if rapid.Bool().Draw(rt, "other_code") {
@@ -676,6 +687,7 @@ func TestC18(t *testing.T) {
 	}
 	c18Peer.rapidCheck(t, pickTier(1500, 12000), func(rt *rapid.T) c18PeerCase {
 		c := c18PeerCase{Callback: rapid.IntRange(0, 3).Draw(rt, "callback") != 0, HangUp: rapid.IntRange(0, 3).Draw(rt, "hang_up") == 0}
+		c.NilCallback = !c.Callback && rapid.Bool().Draw(rt, "nil_callback")
 		for i, n := 0, rapid.IntRange(1, 3).Draw(rt, "ntxn"); i < n; i++ {
 			var tx []c18PeerRcpt
 			for j, m := 0, rapid.IntRange(1, 3).Draw(rt, "nrcpt"); j < m; j++ {
